@@ -681,4 +681,11 @@ example : streams "auto" "application/octet-stream" false = some false := by dec
 example : streams "auto" "application/octet-stream" true = some true := by decide
 example : LiveAndEnding (α := Nat) 150 [(20, .chunk [1]), (60, .chunk [2]), (20, .eof)] := by simp [LiveAndEnding]
 
+/-- The glue between the configuration and the engines: for every proxy section probed through what
+    `services.ProxyServiceWrapper` builds (response_timeout 0 / 1 s / 10 min x read_timeout 150 ms … 20 min x the
+    three profiles), the engines are handed exactly the configured read timeout and the configured profile. (A
+    finite table, regenerated on every run: a tie, not a theorem about all configurations.) -/
+theorem gen_wiring_hands_timeouts_through :
+    Olla.Gen.Streaming.wiredProxySettings.all (fun r => r.2.2.2.1 == r.2.1 && r.2.2.2.2 == r.2.2.1) = true := by decide
+
 end Olla.Props.C18
